@@ -205,6 +205,15 @@ Theorem C13_open2n2_generated_addnogrow_throws_only_if_all_buckets_full :
 Proof. exact OpenInstances.open2n2_generated_addnogrow_full_only_if_all_full. Qed.
 Print Assumptions C13_open2n2_generated_addnogrow_throws_only_if_all_buckets_full.
 
+Theorem C13_open8_openn1_generated_addnogrow_throws_only_if_all_buckets_full :
+  forall rv mc n hash ops mCount k,
+  1 <= mc <= 7 -> 0 <= n <= 63 -> (forall k, 0 <= hash k) ->
+  let h := HSAddRefine.home n hash in
+  let s := fold_left (OpenInstances.n1_step rv mc n h) ops (OpenInstances.n1_empty mc) in
+  OpenInstances.n1_gen_add rv mc n hash s mCount k = Exn ->
+  forall b, 0 <= b < 2 ^ n -> (Z.to_nat mc <= length (OpenTable.bk _ s b))%nat.
+Proof. exact OpenInstances.open8_generated_addnogrow_full_only_if_all_full. Qed.
+Print Assumptions C13_open8_openn1_generated_addnogrow_throws_only_if_all_buckets_full.
 (* THE property on the regenerated search loop (HashSet::pvFind(indexCode, buckets, itemPred), Gen_HSFindIn.v, with the
    regenerated GetMaxProbe / WasFull of the bucket): in every table reachable by insertions and removals, the regenerated
    search finds every present key, in a bucket that holds it ... *)
